@@ -93,6 +93,7 @@ CHECKS["C14"] = {
     "technique": "property-based testing (rapid) + bounded-exhaustive stop-point enumeration with prefix/EOF and resynchronisation oracles",
     "nontrivial_floor": 500,
     "units": [
+        {"name": "regress", "run": "^TestC14Regress$", "kind": "plain"},
         {"name": "exhaustive-stops", "run": "^TestC14Exhaustive$", "kind": "plain", "shards": 8},
         {"name": "stream", "run": "^TestC14Stream$", "kind": "rapid", "checks": {"quick": 16000, "thorough": 400000}, "shards": {"quick": 8, "thorough": 16}},
         {"name": "loopback", "run": "^TestC14Loopback$", "kind": "rapid", "checks": {"quick": 480, "thorough": 16000}, "shards": {"quick": 4, "thorough": 16}},
